@@ -309,6 +309,9 @@ def feasibility(case, out, eps_pair=F(1, 100)):
         return [("crash", "raises %s" % out[2])]
     ports = case["ports"]
     mode = case["mode"]
+    if not case.get("real"):
+        for ln, got in foreign_uops(case, out):
+            bad.append(("foreign-uops", "line %d reports the micro-ops %s, which are not an alternative of its own instruction form" % (ln, str(got)[:200])))
     for ln, (fi, row) in enumerate(zip(case["kernel"], out[1])):
         us = uops_of(case, fi, out[3][ln])
         v = [F(x) for x in row]
@@ -362,6 +365,50 @@ def optimum(case, out):
             conf = sum(c for c, ps in uops if ps and set(ps) <= Sset)
             best = max(best, conf / r)
     return best
+
+
+def alternatives_of(form):
+    us = form["uops"]
+    return [list(a) for a in us.values()] if isinstance(us, dict) else [list(us)]
+
+
+def foreign_uops(case, out):
+    """lines whose reported micro-op list is not one of the alternatives of their own instruction form"""
+    bad = []
+    if out[0] != "ok":
+        return bad
+    def norm(us):
+        return [[float(c), list(ps)] for c, ps in us]
+    for ln, fi in enumerate(case["kernel"]):
+        got = out[3][ln]
+        alts = [norm(a) for a in alternatives_of(case["forms"][fi])]
+        cands = [norm(a) for a in got.values()] if isinstance(got, dict) else [norm(got)]
+        if isinstance(got, dict):
+            ok = cands == alts
+        else:
+            ok = cands[0] in alts
+        if not ok:
+            bad.append((ln, got))
+    return bad
+
+
+def optimum_over_alternatives(case):
+    """the smallest exact optimum over all choices of one alternative per line (no schedule of any admissible choice is faster)"""
+    lines = [fi for fi in case["kernel"] if case["forms"][fi]["tp"] != 0.0]
+    choices = [alternatives_of(case["forms"][fi]) for fi in lines]
+    ports = case["ports"]
+    best = None
+    for combo in itertools.product(*choices):
+        uops = []
+        for alt in combo:
+            uops += [(F(repr(float(c))) if isinstance(c, float) else F(c), list(ps)) for c, ps in alt]
+        o = F(0)
+        for r in range(1, len(ports) + 1):
+            for S in itertools.combinations(ports, r):
+                Sset = set(S)
+                o = max(o, sum(c for c, ps in uops if ps and set(ps) <= Sset) / r)
+        best = o if best is None else min(best, o)
+    return best or F(0)
 
 
 # ------------------------------------------------------------------ shipped kernels on shipped models
